@@ -393,3 +393,23 @@ Definition get_codecs (engine_codecs prefs : list codec) : list codec :=
                [set_fb codec1 (fb_intersection (c_fb codec1) (c_fb c))]
            end) prefs)
   end.
+
+(* ---------- vocabulary of the C15 statements (specification side) ---------- *)
+
+(* the codec's apt parameter, as matchRemoteCodec reads it *)
+Definition apt_of (c : codec) : option string := fmtp_parameter (codec_fmtp c) "apt".
+
+(* c is r apart from the feedback list: same mime type, clock rate, channels,
+   fmtp line and payload type *)
+Definition same_but_fb (c r : codec) : Prop :=
+  c_mime c = c_mime r /\ c_clock c = c_clock r /\ c_channels c = c_channels r /\
+  c_line c = c_line r /\ c_pt c = c_pt r.
+
+(* c is what updateFromRemoteDescription keeps for an offered codec r that
+   matchRemoteCodec matched to the registered codec lc with match type m *)
+Definition entry_of (locals rcs : list codec) (m : mt) (c : codec) : Prop :=
+  exists r ex pa lc,
+    In r rcs /\ match_remote locals r ex pa = Ok (lc, m) /\
+    c = set_fb r (fb_intersection (c_fb lc) (c_fb r)).
+
+Definition has_pt (p : N) (l : list codec) : Prop := exists q, In q l /\ c_pt q = p.
